@@ -1,4 +1,4 @@
-import DoitModel.Proofs.C09Disp
+import DoitModel.Proofs.C09Wait
 /-! # C09 — every run terminates; dependency cycles are diagnosed, never hung on
 
 Property theorems only (model: `Model/Run.lean`, `Model/RunC09.lean`; invariants: `Proofs/Run*.lean`, `Proofs/C09*.lean`).
@@ -60,6 +60,18 @@ theorem C09_some_parked_node_awaits_unparked (inp : RunInput) (hac : Acyclic inp
   obtain ⟨d, h6⟩ := Classical.not_forall.mp h5
   obtain ⟨hd, h7⟩ := Classical.not_imp.mp h6
   exact ⟨nd, hn, d, hd, Classical.not_not.mp h7⟩
+
+/-- C09 (no false cycle), serial runner, FULL: on an acyclic graph — every task table with all edge kinds and calc
+    results, every selection, oracle, flag and set-iteration order — no reachable state has the dispatcher ended by the
+    cyclic-dependency error, neither from the `ancestors` test nor from `_check_deadlock`, and the run never ends with
+    that error.  Proof (`Proofs/C09Wait.lean`): in the state in which `_check_deadlock` would raise, every parked node
+    awaits something (`InvE.w`), what it awaits exists, is registered in `waiting_me` and unfinished (`InvE.e`, with
+    `dispatched = []`), hence itself parked (`InvD.a2`, `InvL.a4/a5`); rank descent (`waiting_descent`) empties
+    `waiting`. -/
+theorem C09_no_false_cycle_serial (inp : RunInput) (hser : inp.runner = .serial) (hac : Acyclic inp) (s : Sys)
+    (hr : Reach inp s) : (∀ d, s.susp ≠ some (.cyclic d)) ∧ s.halt ≠ .cyclic := by
+  obtain ⟨rank, hrk⟩ := hac
+  exact serial_no_cyclic hser hrk hr
 
 /-- the full statement: on an acyclic graph no reachable state has the dispatcher ended by the cyclic error.
     NOT proved as a whole.  Proved: the `ancestors` test never fires (`C09_no_false_cycle_ancestors_*`), and in the
